@@ -38,7 +38,7 @@ try:
         res[p] = {"exit": rc, "lines": lines[:5], "wall_s": round(time.time() - t0, 1)}
         print(p, rc, "; ".join(lines[:2])[:200])
 finally:
-    sh("git -C /repo checkout -- .")
+    sh("git -C /repo checkout -- . && git -C /repo clean -fdq")
     for p, t in ev.items():
         open("/verif/evidence/%s.json" % p, "w").write(t)
 meta["checks"] = res
